@@ -80,6 +80,10 @@ def build(rules, nnt, start, prefix, terminals):
     return dict(states=states,trans=trans,action=action,conflicts=conflicts,rules=rules,first=first,nullable=nullable)
 
 
+class Loop(Exception):
+    """the LR run does not come to an end (a derivation cycle in a conflict-free table, KF4)"""
+
+
 def parse(tab, w):
     """textbook LR driver on a conflict-free FULL-mode table built by build(): the parse tree of w (as cfg.Oracle builds
     them: ('t',i) leaves, (lhs, alternative number, kids) nodes) or None when w is not in the language"""
@@ -95,7 +99,11 @@ def parse(tab, w):
     vals = []
     toks = [("t", x) for x in w] + [EOF_T]
     i = 0
+    fuel = 2000 * (len(w) + 2)
     while True:
+        fuel -= 1
+        if fuel < 0:
+            raise Loop()
         acts = action[states[-1]].get(toks[i])
         if not acts:
             return None
@@ -177,7 +185,11 @@ def prefix_members(tab, w):
 
     def step(states, vals, tok):
         """apply reductions for lookahead tok; -> 'shift'/'acc'/None"""
+        fuel = 2000 * (len(w) + 2)
         while True:
+            fuel -= 1
+            if fuel < 0:
+                raise Loop()
             acts = action[states[-1]].get(tok)
             if not acts:
                 return None
